@@ -23,7 +23,7 @@ def run(ck, tier, runner):
         queries, keys = [], []
         for _ in range(per_db if not big else 3):
             q, ty = g.query(rng.pick([1, 2, 3, 3, 4]) if not big else rng.pick([1, 2]))
-            if qgen.has_or_absorption(q):
+            if qgen.excluded(q):
                 continue
             if rng.chance(1, 3) and ty:
                 q, ks = qgen.top_sort(rng, q, ty)
